@@ -13,7 +13,7 @@ import (
 )
 
 func init() {
-	register("C19", "Decides, for the run methods of canary.{pause,validate,fail}Options, pause.pauseOptions and freeze.freezeOptions: (R1) exactly one API write site is reachable, of the documented verb and kind (Patch of the ExtendedDaemonSet; Status().Update of the replica set for fail), not in a loop, and no other kubectl-eds code writes to the API; (R2) the written object is DeepCopy() of the object read by Get with the user's namespace/name (for fail: of the replica set named by status.canary.replicaSet of that object, same namespace), the read object is never modified, the patch base is MergeFrom(read object), the copy is modified only by creating the annotation map and by annotation writes whose final key/value set on every path to the write is one of the command's documented tables (validate: canary-valid = status.canary.replicaSet of the object read; fail: one append to Status.Conditions of a condition whose constructor puts type Canary-Failed and status True), and the table written is the one of the command word that the cobra constructor binds to the mode field tested on that path; (R3) the write is dominated by the canary precondition (status.canary != nil, plus spec.strategy.canary != nil for pause/fail; status.canary == nil for rolling-update pause and freeze); (R4) every annotation key written is looked up by a function reachable from the controllers' Reconcile, the reader compares with a constant the writer writes (or, for canary-valid, with a name parameter), and the condition type/status written by fail are the constants the controller's failed-reader tests; (R5) reader side of validate: status.activeReplicaSet comes from one decision function, and on every path of it on which IsCanaryDeploymentValid(daemonset annotations, up-to-date replica set name) is true the up-to-date replica set is returned (no pause/fail/time condition can mask a validation); (R6) reader side of unpause: Result.IsUnpaused is stored only from IsCanaryDeploymentUnpaused applied to the parent's annotations, every store IsPaused=true reachable from the canary strategy is under the must-fact IsUnpaused=false of the same Result (an unpaused canary is not re-paused by the per-pod evaluation), IsPaused is otherwise stored only from the persisted reader, and a store IsPaused=false under IsUnpaused=true exists; (R7) refusal table: every path of a canary command's run() that returns an error without reaching the write carries a documented refusal reason — a Get error, spec.strategy.canary == nil / status.canary == nil (as documented for the command), or an equality between the looked-up annotation of a documented key and the very value the command would write for the mode of that path (the annotation is present and already expresses the requested state); a refusal on the mere absence of the annotation (an auto-paused canary has no annotation) is reported. The rolling-update and freeze commands, whose documented behaviour refuses unpause/unfreeze on absence, are not subject to R7.", runC19)
+	register("C19", "Decides, for the run methods of canary.{pause,validate,fail}Options, pause.pauseOptions and freeze.freezeOptions: (R1) exactly one API write site is reachable, of the documented verb and kind (Patch of the ExtendedDaemonSet; Status().Update of the replica set for fail), not in a loop, and no other kubectl-eds code writes to the API; (R2) the written object is DeepCopy() of the object read by Get with the user's namespace/name (for fail: of the replica set named by status.canary.replicaSet of that object, same namespace), the read object is never modified, the patch base is MergeFrom(read object), the copy is modified only by creating the annotation map and by annotation writes whose final key/value set on every path to the write is one of the command's documented tables (validate: canary-valid = status.canary.replicaSet of the object read; fail: one append to Status.Conditions of a condition whose constructor puts type Canary-Failed and status True), and the table written is the one of the command word that the cobra constructor binds to the mode field tested on that path; (R3) the write is dominated by the canary precondition (status.canary != nil, plus spec.strategy.canary != nil for pause/fail; status.canary == nil for rolling-update pause and freeze); (R4) every annotation key written is looked up by a function reachable from the controllers' Reconcile, the reader compares with a constant the writer writes (or, for canary-valid, with a name parameter), and the condition type/status written by fail are the constants the controller's failed-reader tests; (R5) reader side of validate: status.activeReplicaSet comes from one decision function, and on every path of it on which IsCanaryDeploymentValid(daemonset annotations, up-to-date replica set name) is true the up-to-date replica set is returned (no pause/fail/time condition can mask a validation); (R6) reader side of unpause: Result.IsUnpaused is stored only from IsCanaryDeploymentUnpaused applied to the parent's annotations, every store IsPaused=true reachable from the canary strategy is under the must-fact IsUnpaused=false of the same Result (an unpaused canary is not re-paused by the per-pod evaluation), IsPaused is otherwise stored only from the persisted reader, and a store IsPaused=false under IsUnpaused=true exists; (R7) refusal table: every path of a canary command's run() that returns an error without reaching the write carries a documented refusal reason — a Get error, spec.strategy.canary == nil / status.canary == nil (as documented for the command), or an equality between the looked-up annotation of a documented key and the very value the command would write for the mode of that path (the annotation is present and already expresses the requested state); a refusal on the mere absence of the annotation (an auto-paused canary has no annotation) is reported. The rolling-update and freeze commands, whose documented behaviour refuses unpause/unfreeze on absence, are not subject to R7; (R8, imported C06.R3) the replica-set sync starts IsFailed from the persisted Canary-Failed condition that `canary fail` appends, never resets it and rewrites the condition from it; (R9) in every function reachable from the ExtendedDaemonSet Reconcile that assigns status.canary, every path that leaves status.canary non-nil (created on the path, or tested non-nil and kept) stores status.canary.replicaSet = Name of the replica set the promotion decision treats as up-to-date — the name `canary validate` writes into the annotation and `canary fail` looks the replica set up by is the current canary, not one cached from an earlier reconcile.", runC19)
 }
 
 type c19Cmd struct {
@@ -51,6 +51,8 @@ func runC19(r *Run) {
 	r.Floor("C19.R6", 4)
 	r.RuleDoc("C19.R7", "refusal table of the canary commands: an error return before the write carries Get failure, a missing canary precondition, or the annotation present with the value that already expresses the requested state")
 	r.Floor("C19.R7", 8)
+	r.RuleDoc("C19.R9", "status.canary.replicaSet (the name validate and fail act on) is rewritten with the up-to-date replica set's name on every path that leaves status.canary set")
+	r.Floor("C19.R9", 2)
 	r.NotCovered("what the controller does in the following reconciles (C05/C07/C08 decide the reader side structurally); the 'already in that state' refusals (dropping one only makes the command rewrite the same value); how complete() fills the user's namespace/name; a pre-existing Canary-Failed condition with status False on the canary replica set (fail appends a second condition, the reader takes the first); concurrent changes between the Get and the write")
 
 	pausedK := c19Const(r, "ExtendedDaemonSetCanaryPausedAnnotationKey")
@@ -115,8 +117,15 @@ func runC19(r *Run) {
 	wantT, _ := r.Prog.constStr(pkgAPI, "ConditionTypeCanaryFailed")
 	wantS, _ := r.Prog.constStr(pkgCoreV1, "ConditionTrue")
 	c19Wire(r, cmds, &c19CondWrite{typ: wantT, status: wantS})
-	c19ValidateReader(r)
+	site, utd := c19ValidateReader(r)
 	c19UnpauseReader(r)
+	// R8: the failed mark set by `canary fail` survives the replica-set sync (same structural clause
+	// as C06.R3: IsFailed starts from the persisted Canary-Failed condition, is never reset, and the
+	// condition is rewritten from it)
+	r.Floor("C19.R8", 4)
+	r.ImportFrom(runC06, map[string]string{"C06.R3": "C19.R8"}, map[string]string{
+		"C19.R8": "reader side of fail: the replica-set sync starts IsFailed from the persisted Canary-Failed condition (the one `canary fail` appends), never resets it, and rewrites the condition from it — a manual fail is not erased before the rollback"})
+	c19CanaryNameFresh(r, site, utd)
 }
 
 // c19CondWrite is what the fail command appends.
@@ -390,10 +399,10 @@ func c19Wire(r *Run, cmds []*c19Cmd, cw *c19CondWrite) {
 // ---------------------------------------------------------------------------------------------
 // R5: reader side of validate
 
-func c19ValidateReader(r *Run) {
+func c19ValidateReader(r *Run) (*decisionSite, *ssa.Parameter) {
 	site := findDecision(r, "C19.R5")
 	if site == nil {
-		return
+		return nil, nil
 	}
 	fn := site.decision
 	// Roles of the decision's parameters, read off the decision function itself (with the
@@ -414,7 +423,7 @@ func c19ValidateReader(r *Run) {
 	r.paths += len(paths)
 	if !ok {
 		r.Undecided("C19.R5", "validate table", r.Prog.Pos(fn.Pos()), shortFunc(fn), "path cap exceeded")
-		return
+		return nil, nil
 	}
 	rootParam := func(c *icall, v ssa.Value) *ssa.Parameter {
 		if p, isP := v.(*ssa.Parameter); isP && c != nil && c.parent == nil {
@@ -485,7 +494,7 @@ func c19ValidateReader(r *Run) {
 		"the decision takes the ExtendedDaemonSet, the replica set whose name is compared with the canary-valid annotation of that ExtendedDaemonSet, and one other replica set", rolesOK,
 		fmt.Sprintf("%d replica-set parameters; validated parameter found=%v", len(ersParams), utd != nil))
 	if !rolesOK {
-		return
+		return nil, nil
 	}
 	type atoms struct{ eqActive, activeNil, noCanary, valid *bool }
 	describe := func(a atoms) string {
@@ -596,6 +605,7 @@ func c19ValidateReader(r *Run) {
 		r.Check("C19.R5", "validate table", r.Prog.Pos(fn.Pos()), shortFunc(fn), "the promotion decision branches on IsCanaryDeploymentValid(daemonset annotations, up-to-date replica set name)", false,
 			"no path carries the fact canary-valid=true")
 	}
+	return site, utd
 }
 
 // ---------------------------------------------------------------------------------------------
@@ -2278,4 +2288,199 @@ func c19Bindings(r *Run, c *c19Cmd) (map[string]c19Mode, string) {
 		}
 	}
 	return out, ""
+}
+
+// ---------------------------------------------------------------------------------------------
+// R9: status.canary.replicaSet names the current canary
+
+func c19CanaryNameFresh(r *Run, site *decisionSite, utd *ssa.Parameter) {
+	if site == nil || utd == nil {
+		r.Check("C19.R9", "canary name", "-", "-", "the promotion decision and its up-to-date parameter are known (see C19.R5)", false, "not resolved")
+		return
+	}
+	rec, reach := edsReconcile(r)
+	if rec == nil {
+		return
+	}
+	// the values that denote the up-to-date replica set: the decision's argument, followed through
+	// helper parameters and results
+	follow := func(f *ssa.Function) bool { return reach[f] && r.Prog.IsRuleSite(f) }
+	// forward only (into callees): the decision itself returns one of its two replica sets, so
+	// following results would make "current" an alias of "up-to-date"
+	utdArg := site.call.Call.Args[paramIndex(utd)]
+	utdA := aliasClosure(utdArg, follow, nil)
+	isStatusPtr := func(t types.Type) bool { return isPtrToNamed(t, pkgAPI, "ExtendedDaemonSetStatus") }
+	isCanaryPtr := func(t types.Type) bool { return isPtrToNamed(t, pkgAPI, "ExtendedDaemonSetStatusCanary") }
+	nFns := 0
+	for _, fn := range sortedFuncs(reach) {
+		if !r.Prog.IsRuleSite(fn) {
+			continue
+		}
+		assigns := false
+		for _, b := range fn.Blocks {
+			for _, in := range b.Instrs {
+				if st, ok := in.(*ssa.Store); ok {
+					if fa, isFA := st.Addr.(*ssa.FieldAddr); isFA && fieldName(fa) == "Canary" && isStatusPtr(fa.X.Type()) && !isNilConst(unwrap(st.Val)) {
+						assigns = true
+					}
+				}
+			}
+		}
+		if !assigns {
+			continue
+		}
+		nFns++
+		paths, ok := enumIPaths(fn, samePkgInliner(r.Prog, fn, nil), 20000)
+		r.paths += len(paths)
+		if !ok {
+			r.Undecided("C19.R9", "canary name", r.Prog.Pos(fn.Pos()), shortFunc(fn), "path cap exceeded")
+			continue
+		}
+		type iv struct {
+			c *icall
+			v ssa.Value
+		}
+		type agg struct {
+			ok     bool
+			detail string
+			pos    token.Pos
+		}
+		res := map[string]*agg{}
+		var order []string
+		for _, p := range paths {
+			lastCanary := map[iv]string{} // "nil" / "set"
+			nameOf := map[iv]ievent{}     // the store of ReplicaSet that applies to X's current canary
+			hasName := map[iv]bool{}
+			litName := map[iv]ievent{} // ReplicaSet stored into a not yet assigned literal
+			notNil := map[iv]bool{}    // fact X.Canary != nil
+			var xs []iv
+			seenX := map[iv]bool{}
+			note := func(x iv) {
+				if !seenX[x] {
+					seenX[x] = true
+					xs = append(xs, x)
+				}
+			}
+			bi := 0
+			for i := 0; i <= len(p.events); i++ {
+				for bi < len(p.branches) && p.branches[bi].at <= i {
+					br := p.branches[bi]
+					bi++
+					c, l, rg, equal, isEq := ieq(br)
+					if !isEq || !(iisNil(c, l) || iisNil(c, rg)) {
+						continue
+					}
+					o := l
+					if iisNil(c, l) {
+						o = rg
+					}
+					oc, ov := iunwrap(c, o)
+					if ld, isLd := ov.(*ssa.UnOp); isLd && ld.Op == token.MUL {
+						if fa, isFA := ld.X.(*ssa.FieldAddr); isFA && fieldName(fa) == "Canary" && isStatusPtr(fa.X.Type()) {
+							bc, bv := iunwrap(oc, fa.X)
+							x := iv{bc, bv}
+							note(x)
+							if lastCanary[x] == "" {
+								notNil[x] = !equal
+							}
+						}
+					}
+				}
+				if i == len(p.events) {
+					break
+				}
+				ev := p.events[i]
+				st, isSt := ev.in.(*ssa.Store)
+				if !isSt {
+					continue
+				}
+				fa, isFA := st.Addr.(*ssa.FieldAddr)
+				if !isFA {
+					continue
+				}
+				switch {
+				case fieldName(fa) == "Canary" && isStatusPtr(fa.X.Type()):
+					bc, bv := iunwrap(ev.c, fa.X)
+					x := iv{bc, bv}
+					note(x)
+					vc, vv := iunwrap(ev.c, st.Val)
+					if isNilConst(vv) {
+						lastCanary[x] = "nil"
+						hasName[x] = false
+						continue
+					}
+					lastCanary[x] = "set"
+					hasName[x] = false
+					if ln, has := litName[iv{vc, vv}]; has {
+						nameOf[x], hasName[x] = ln, true
+					}
+				case fieldName(fa) == "ReplicaSet" && isCanaryPtr(fa.X.Type()):
+					bc, bv := iunwrap(ev.c, fa.X)
+					if ld, isLd := bv.(*ssa.UnOp); isLd && ld.Op == token.MUL {
+						if fa2, isFA2 := ld.X.(*ssa.FieldAddr); isFA2 && fieldName(fa2) == "Canary" && isStatusPtr(fa2.X.Type()) {
+							xc, xv := iunwrap(bc, fa2.X)
+							x := iv{xc, xv}
+							note(x)
+							nameOf[x], hasName[x] = ev, true
+							continue
+						}
+					}
+					litName[iv{bc, bv}] = ev
+				}
+			}
+			for _, x := range xs {
+				live := lastCanary[x] == "set" || lastCanary[x] == "" && notNil[x]
+				if !live {
+					continue
+				}
+				how := "created on the path"
+				if lastCanary[x] == "" {
+					how = "already set and kept"
+				}
+				good, detail := false, "status.canary.replicaSet is not stored on this path: it keeps the name cached by an earlier reconcile"
+				var at ssa.Instruction = p.ret
+				if hasName[x] {
+					ev := nameOf[x]
+					at = ev.in
+					vc, vv := iunwrap(ev.c, ev.in.(*ssa.Store).Val)
+					var root ssa.Value
+					if call, isCall := vv.(*ssa.Call); isCall && strings.HasSuffix(calleeName(&call.Call), ".GetName") {
+						if call.Call.IsInvoke() {
+							_, root = iunwrap(vc, call.Call.Value)
+						} else if len(call.Call.Args) == 1 {
+							_, root, _ = iaccess(vc, call.Call.Args[0])
+						}
+					} else if _, rt, f := iaccess(vc, vv); len(f) >= 1 && f[len(f)-1] == "Name" {
+						root = rt
+					}
+					good = root != nil && utdA[root]
+					detail = "stored from " + pathString(ev.in.(*ssa.Store).Val)
+					if !good {
+						detail += ", which is not the Name of the replica set the promotion decision treats as up-to-date"
+					}
+				}
+				construct := "status.canary " + how
+				a := res[construct]
+				if a == nil {
+					a = &agg{ok: true, pos: instrPos(at)}
+					res[construct] = a
+					order = append(order, construct)
+				}
+				if !good {
+					a.ok, a.pos = false, instrPos(at)
+				}
+				if a.detail == "" || !good {
+					a.detail = detail
+				}
+			}
+		}
+		sort.Strings(order)
+		for _, cst := range order {
+			a := res[cst]
+			r.Check("C19.R9", cst, r.Prog.Pos(a.pos), shortFunc(fn), "every path that leaves status.canary set stores status.canary.replicaSet = Name of the up-to-date replica set (the canary `validate` and `fail` act on)", a.ok, a.detail)
+		}
+	}
+	if nFns == 0 {
+		r.Check("C19.R9", "canary name", "-", "-", "a function reachable from the ExtendedDaemonSet Reconcile assigns status.canary", false, "none found")
+	}
 }
